@@ -369,7 +369,7 @@ def closure_positions(toks, lo, hi):
         t = toks[i]
         if t.kind == "punct" and t.text in ("|", "||"):
             p = toks[i - 1]
-            is_closure = (p.kind == "punct" and p.text in ("(", ",", "=", "{", ";", "=>", "!", "&&", "||", "?", ":")) \
+            is_closure = (p.kind == "punct" and p.text in ("(", ",", "=", "{", ";", "=>", "!", "&&", "||", ":")) \
                 or (p.kind == "ident" and p.text in ("move", "return", "in", "else"))
             if is_closure:
                 res.append(i)
